@@ -10,6 +10,7 @@ from engine import astq as Q
 from engine.cfg import walk_noscope
 from engine.pysrc import Repo, F, dotted, src, calls_in
 from engine.effects import Effects, fmt as fmt_effect
+from rules import tdscommon
 from engine.report import AnalysisError
 from rules import c11
 
@@ -42,7 +43,7 @@ def rule_resume(ctx, repo):
     # resume path: calc_h(resume=True) then t += h; nothing that rebuilds state
     ir = F.method(repo, "TDS", "init_resume", TDS)
     a = [n for n in ir.g.nodes() if ir.g.data(n)["kind"] == "stmt" and Q.match("self.calc_h(resume=True)", ir.g.data(n)["ast"])]
-    b = [n for n in ir.g.nodes() if ir.g.data(n)["kind"] == "stmt" and Q.match("dae.t += self.h", ir.g.data(n)["ast"])]
+    b = tdscommon.clock_nodes(repo, ir)
     ok = bool(a and b) and ir.before(a, b)[0]
     ctx.check(ok, "C14.resume", "TDS.init_resume", "h = calc_h(resume=True); t += h", "resume no longer advances time by a freshly computed step", ir.W())
     forbidden = ("store_switch_times", "reset", "clear_ts", "init", "store_sparse_pattern", "set_address")
